@@ -14,9 +14,9 @@ KINDS_FULL = [
 KINDS_INTERACT = ["absent", "null", "int", "s_abc", "s_int", "s_float", "s_bool", "l_empty", "l_null"]
 KINDS_PAD = ["absent", "s_bool", "s_bool_pad", "s_False_nl", "s_int", "s_int_pad", "s_float_pad", "s_True", "s_abc"]
 KINDS_DATE = ["s_date", "s_time", "s_datetime", "s_int", "s_abc", "null"]
-KINDS_SMALL = ["absent", "null", "int", "float", "s_abc", "s_int", "l_empty", "l_int", "o_k", "l_objs"]
+KINDS_SMALL = ["absent", "null", "int", "float", "s_abc", "s_int", "l_empty", "l_int", "o_k", "l_objs", "l_lists_mixed"]
 KINDS_LIT = ["absent", "null", "s_abc", "s_xyz", "s_near", "s_long", "s_uni", "s_esc", "s_int", "l_strs15", "l_strs16", "l_rep16",
-             "l_strs8a", "l_strs8b"]
+             "l_strs8a", "l_strs8b", "s_pad_plain", "s_pad_plain2"]
 KINDS_LITM = ["o_tags8a", "o_tags8b", "o_tags_rep", "o_tag_uni", "o_k"]
 KINDS_SAMESTR = ["absent", "null", "s_abc", "s_xyz", "l_strs_ab", "o_same"]
 KINDS_ORDER = ["absent", "null", "int", "float", "bool", "s_abc", "l_int", "o_k", "l_mixed_ref_int", "l_mixed_ref_str"]
@@ -24,11 +24,11 @@ KINDS_ORDER = ["absent", "null", "int", "float", "bool", "s_abc", "l_int", "o_k"
 KINDS_ORDER2 = ["absent", "o_digits", "o_digits_mixed", "o_deep_int", "o_deep_str", "o_deep_null", "s_abc"]
 KINDS_DBG = ["int", "float"]
 KINDS_NEST = ["absent", "null", "o_k", "o_kj", "l_objs", "l_obj_xy", "l_objs_xy_x", "o_xy", "o_xyz", "l_empty", "o_empty", "s_abc",
-              "o_parent1", "o_parent2", "l_objs_xys_x"]
+              "o_parent1", "o_parent2", "l_objs_xys_x", "l_lists_mixed", "l_objs_xu", "l_objs_xopt"]
 
 ATOMS = {"s_abc": "abc", "s_xyz": "xyz", "s_int": "12", "s_float": "1.5", "s_bool": "true", "s_long": LONG, "s_empty": "",
          "s_date": "2020-01-02", "s_time": "11:22:33", "s_datetime": "2020-01-02T11:22:33", "s_near": NEAR, "s_int2": "-7",
-         "s_nan": "nan", "s_True": "True", "s_bool_pad": " true", "s_int_pad": " 12\n", "s_float_pad": "\t1.5 ", "s_False_nl": "False\n", "s_uni": "\u041c\u043e\u0441\u043a\u0432\u0430 \u041a\u0438\u0457\u0432",
+         "s_nan": "nan", "s_True": "True", "s_bool_pad": " true", "s_int_pad": " 12\n", "s_float_pad": "\t1.5 ", "s_False_nl": "False\n", "s_pad_plain": " kg", "s_pad_plain2": "lb\t", "s_uni": "\u041c\u043e\u0441\u043a\u0432\u0430 \u041a\u0438\u0457\u0432",
          "s_esc": '"' * 6 + "\\" * 5 + "\t\n"}
 STRS16 = [f"v{i:02d}" for i in range(16)]
 
@@ -91,6 +91,8 @@ def build(ch, tag, kind, sym=False):
         return [leaf(ch, tag + "[0]", "int", sym), "abc"]
     if kind == "l_objs":
         return [{"x": leaf(ch, tag + "[0].x", "int", sym)}, {"x": "q", "y": None}]
+    if kind == "l_lists_mixed":
+        return [[leaf(ch, tag + "[0][0]", "int", sym), leaf(ch, tag + "[0][1]", "float", sym)], [leaf(ch, tag + "[1][0]", "int", sym)]]
     if kind == "l_lists":
         return [[leaf(ch, tag + "[0][0]", "int", sym)], []]
     if kind == "o_empty":
@@ -104,6 +106,10 @@ def build(ch, tag, kind, sym=False):
     if kind == "l_objs_xy_x":
         return [{"x": leaf(ch, tag + "[0].x", "int", sym), "y": leaf(ch, tag + "[0].y", "int", sym)},
                 {"x": leaf(ch, tag + "[1].x", "int", sym)}]
+    if kind == "l_objs_xu":        # x is int in one object and a short string in another
+        return [{"x": leaf(ch, tag + "[0].x", "int", sym), "y": 1}, {"x": "a", "y": 2}]
+    if kind == "l_objs_xopt":      # x is int or missing
+        return [{"x": leaf(ch, tag + "[0].x", "int", sym), "y": 1}, {"y": 2}]
     if kind == "l_objs_xys_x":
         return [{"x": leaf(ch, tag + "[0].x", "int", sym), "y": "abc"}, {"x": leaf(ch, tag + "[1].x", "int", sym)}, {"x": 1, "y": None}]
     if kind == "o_xy":
